@@ -4,43 +4,52 @@ import "verifharness/tl"
 
 // C07: clean shutdown. Families: cancellation at every park point (queue: before the blocking receive, after
 // take+count, before the blocking offer; worker: loop top, before its blocking receive; PushTask: both Done()
-// tests) x loads (idle, every worker pinned, every lane full with producers blocked, hand-over in flight),
-// and random stress cancelled at a random moment. Every run ends with: PushTask begun after cancel, Wait()
-// within the bound after the last running task was released, goroutine dump, PushTask after Wait.
-func main() { tl.Main("C07", run) }
+// tests) x loads (idle, every worker pinned, every lane full with producers blocked, hand-over in flight);
+// cancel inside every Done()/Err() call of PushTask; cancel when idle after work; back-to-back
+// New/push/cancel/Wait on one P; PushTask after the context ended onto lanes with room (gate cancel, wrapped
+// WithCancel, wrapped expired WithDeadline); random stress cancelled at a random moment. Every run ends with:
+// PushTask begun after cancel, Wait() within the bound after the last running task was released, goroutine
+// dump, PushTask after Wait.
+func main() {
+	tl.Main("C07", []tl.Family{{Name: "cancelpoints", Run: cancelpoints}, {Name: "shutdown", Run: shutdown}, {Name: "stress", Run: stress}})
+}
 
-func run(en *tl.Engine) {
-	reps := 1
+func reps(en *tl.Engine, quick, thorough int) int {
 	if en.E.Thorough() {
-		reps = 10
+		return thorough
 	}
-	for rep := 0; rep < reps; rep++ {
+	return quick
+}
+
+func cancelpoints(en *tl.Engine) {
+	for rep := 0; rep < reps(en, 1, 10); rep++ {
 		for _, c := range tl.Configs() {
 			en.CancelPoints(c[0], c[1])
+		}
+	}
+}
+
+func shutdown(en *tl.Engine) {
+	for rep := 0; rep < reps(en, 1, 6); rep++ {
+		for _, c := range tl.Configs() {
 			for k := 0; k < 4; k++ {
 				en.CancelInsidePush(c[0], c[1], k, k%2 == 0)
 			}
 			en.IdleAfterWork(c[0], c[1], 0)
 			en.IdleAfterWork(c[0], c[1], 2+c[1])
+			for v := 0; v < 3; v++ {
+				en.PushAfterCancelRoom(c[0], c[1], v)
+			}
+		}
+		// back-to-back New/push/cancel/Wait on a single P, ~50 repetitions with several lanes
+		for i := 0; i < 51; i++ {
+			en.BackToBack(2+i%3, 1+(i/3)%3, i%3, i)
 		}
 	}
-	// back-to-back New/push/cancel/Wait on a single P, ~50 repetitions with several lanes
-	b2b := 51
-	if en.E.Thorough() {
-		b2b = 300
-	}
-	for i := 0; i < b2b; i++ {
-		en.BackToBack(2+i%3, 1+(i/3)%3, i%3, i)
-	}
-	for _, c := range tl.Configs() {
-		for v := 0; v < 3; v++ {
-			en.PushAfterCancelRoom(c[0], c[1], v)
-		}
-	}
-	small, big := 300, 30
-	if en.E.Thorough() {
-		small, big = 4000, 500
-	}
+}
+
+func stress(en *tl.Engine) {
+	small, big := reps(en, 300, 4000), reps(en, 30, 500)
 	for i := 0; i < small; i++ {
 		n, q := 1+en.Rng.Intn(3), en.Rng.Intn(3)
 		en.Stress(n, q, tl.StressOpt{PanicPct: 5, Observers: 0, CancelMode: 2}, i)
